@@ -387,7 +387,9 @@ def r01_7(ctx, rr):
         abs_asg = [n for n in walk(b.body) if n.get("k") == "Assign" and n["l"].get("k") == "Field" and n["l"]["name"] == "absolute"]
         rels = [n for n in walk(b.body) if n.get("k") == "MethodCall" and n["name"] == "set_rel"]
         rr.instances += 1
-        ok_a = len(abs_asg) == 1 and mentions_id(abs_asg[0]["r"], U) and any(x.get("k") == "Binary" and x["op"] == "-" for x in walk(abs_asg[0]["r"]))
+        # the counter's value: assigned to the field, or given in the struct literal that creates the counter
+        abs_vals = [n["r"] for n in abs_asg] + [f["e"] for n in walk(b.body) if n.get("k") == "Struct" and range_of(F, n) is None for f in n["fields"] if f["name"] == "absolute"]
+        ok_a = len(abs_vals) == 1 and mentions_id(abs_vals[0], U) and any(x.get("k") == "Binary" and x["op"] == "-" for x in walk(abs_vals[0]))
         key = "%s:absolute-relative-to-upper" % short_fn(b.key)
         rr.ob(ok_a, key=key)
         if not ok_a:
